@@ -34,6 +34,62 @@ func fromI(x interface{}) int {
 	return badElem
 }
 
+// ELEMENTS of interface{} streams: the model values 5 and 6 are two DIFFERENT pointers to equal numbers.
+// An element is what == says it is (the pointer), so 5 and 6 stay different elements although they are
+// deeply equal; every other model value is a plain int. (Keys of sets stay plain ints.)
+var ptrElem5, ptrElem6 = func() (*int, *int) { a, b := 100, 100; return &a, &b }()
+
+func elemToI(v int) interface{} {
+	switch v {
+	case nilElem:
+		return nil
+	case 5:
+		return ptrElem5
+	case 6:
+		return ptrElem6
+	}
+	return v
+}
+
+func elemFromI(x interface{}) int {
+	switch t := x.(type) {
+	case nil:
+		return nilElem
+	case int:
+		if t == 5 || t == 6 {
+			return badElem
+		}
+		return t
+	case *int:
+		switch t {
+		case ptrElem5:
+			return 5
+		case ptrElem6:
+			return 6
+		}
+	}
+	return badElem
+}
+
+func elemsToI(in []int) []interface{} {
+	if in == nil {
+		return nil
+	}
+	out := make([]interface{}, len(in))
+	for i, v := range in {
+		out[i] = elemToI(v)
+	}
+	return out
+}
+
+func iToElems(in []interface{}) []int {
+	out := make([]int, len(in))
+	for i, v := range in {
+		out[i] = elemFromI(v)
+	}
+	return out
+}
+
 func intsToI(in []int) []interface{} {
 	if in == nil {
 		return nil
@@ -119,6 +175,15 @@ func (w *watcher) ints(what string, in []int) []int {
 }
 
 func (w *watcher) ifaces(what string, in []int) []interface{} {
+	return w.ifacesWith(what, in, toI, fromI)
+}
+
+// elems: like ifaces, for ELEMENTS of interface{} streams (see elemToI)
+func (w *watcher) elems(what string, in []int) []interface{} {
+	return w.ifacesWith(what, in, elemToI, elemFromI)
+}
+
+func (w *watcher) ifacesWith(what string, in []int, toI func(int) interface{}, fromI func(interface{}) int) []interface{} {
 	if in == nil {
 		return nil
 	}
@@ -479,7 +544,7 @@ func iptr(s stream) *fpgo.StreamForInterfaceDef {
 }
 
 func (g iStream) addr() uintptr  { return uintptr(unsafe.Pointer(g.p)) }
-func (g iStream) toArray() []int { return iToInts(g.p.ToArray()) }
+func (g iStream) toArray() []int { return iToElems(g.p.ToArray()) }
 func (g iStream) scribble() {
 	a := g.p.ToArray()
 	for i := range a {
@@ -491,26 +556,26 @@ func (g iStream) scribble() {
 	_ = a
 }
 func (g iStream) length() int         { return g.p.Len() }
-func (g iStream) get(i int) int       { return fromI(g.p.Get(i)) }
-func (g iStream) contains(v int) bool { return g.p.Contains(toI(v)) }
+func (g iStream) get(i int) int       { return elemFromI(g.p.Get(i)) }
+func (g iStream) contains(v int) bool { return g.p.Contains(elemToI(v)) }
 func (g iStream) mapf(c int) stream {
-	return is(g.p.Map(func(v interface{}, i int) interface{} { return toI(mapModel(fromI(v), i, c)) }))
+	return is(g.p.Map(func(v interface{}, i int) interface{} { return elemToI(mapModel(elemFromI(v), i, c)) }))
 }
 func (g iStream) filter(c int) stream {
-	return is(g.p.Filter(func(v interface{}, i int) bool { return keepModel(fromI(v), i, c) }))
+	return is(g.p.Filter(func(v interface{}, i int) bool { return keepModel(elemFromI(v), i, c) }))
 }
 func (g iStream) reject(c int) stream {
-	return is(g.p.Reject(func(v interface{}, i int) bool { return keepModel(fromI(v), i, c) }))
+	return is(g.p.Reject(func(v interface{}, i int) bool { return keepModel(elemFromI(v), i, c) }))
 }
 func (g iStream) filterNotNil() stream { return is(g.p.FilterNotNil()) }
 func (g iStream) distinct() stream     { return is(g.p.Distinct()) }
 func (g iStream) appendItems(w *watcher, items []int) stream {
-	return is(g.p.Append(w.ifaces("Append", items)...))
+	return is(g.p.Append(w.elems("Append", items)...))
 }
 func (g iStream) concat(w *watcher, slices [][]int) stream {
 	args := make([][]interface{}, len(slices))
 	for i, s := range slices {
-		args[i] = w.ifaces("Concat", s)
+		args[i] = w.elems("Concat", s)
 	}
 	return is(g.p.Concat(args...))
 }
@@ -523,15 +588,15 @@ func (g iStream) extend(streams []stream) stream {
 }
 func (g iStream) remove(i int) stream { return is(g.p.Remove(i)) }
 func (g iStream) removeItem(w *watcher, items []int) stream {
-	return is(g.p.RemoveItem(w.ifaces("RemoveItem", items)...))
+	return is(g.p.RemoveItem(w.elems("RemoveItem", items)...))
 }
 func (g iStream) reverse() stream { return is(g.p.Reverse()) }
 func (g iStream) sortBy(desc bool) stream {
-	return is(g.p.Sort(func(a, b interface{}) bool { return lessModel(fromI(a), fromI(b), desc) }))
+	return is(g.p.Sort(func(a, b interface{}) bool { return lessModel(elemFromI(a), elemFromI(b), desc) }))
 }
 func (g iStream) sortByIndex(desc bool) stream {
 	p := g.p
-	return is(p.SortByIndex(func(a, b int) bool { return lessModel(fromI(p.Get(a)), fromI(p.Get(b)), desc) }))
+	return is(p.SortByIndex(func(a, b int) bool { return lessModel(elemFromI(p.Get(a)), elemFromI(p.Get(b)), desc) }))
 }
 func (g iStream) minus(o stream) stream        { return is(g.p.Minus(iptr(o))) }
 func (g iStream) intersection(o stream) stream { return is(g.p.Intersection(iptr(o))) }
@@ -640,7 +705,7 @@ func (g iSSet) valueSeqs() [][]int {
 	out := make([][]int, len(vs))
 	for i, v := range vs {
 		if p := asIStream(v); p != nil {
-			out[i] = iToInts(p.ToArray())
+			out[i] = iToElems(p.ToArray())
 		}
 	}
 	return out
@@ -676,15 +741,15 @@ func (iFamily) name() string { return "I" }
 func (iFamily) newStream(kind int, elems []int) stream {
 	hasNil := false
 	for _, v := range elems {
-		if v == nilElem {
+		if v == nilElem || v == 5 || v == 6 { // not plain ints in this family: FromArrayInt cannot build them
 			hasNil = true
 		}
 	}
 	switch kind % 3 {
 	case 0:
-		return is(fpgo.StreamForInterface.FromArray(intsToI(append([]int{}, elems...))))
+		return is(fpgo.StreamForInterface.FromArray(elemsToI(append([]int{}, elems...))))
 	case 1:
-		return is(fpgo.StreamForInterface.From(intsToI(append([]int{}, elems...))...))
+		return is(fpgo.StreamForInterface.From(elemsToI(append([]int{}, elems...))...))
 	}
 	if len(elems) == 0 {
 		return is(new(fpgo.StreamForInterfaceDef))
@@ -692,7 +757,7 @@ func (iFamily) newStream(kind int, elems []int) stream {
 	if !hasNil {
 		return is(fpgo.StreamForInterface.FromArrayInt(append([]int{}, elems...)))
 	}
-	return is(fpgo.StreamForInterface.FromArray(intsToI(append([]int{}, elems...))))
+	return is(fpgo.StreamForInterface.FromArray(elemsToI(append([]int{}, elems...))))
 }
 func (iFamily) newSet(kind int, keys, vals []int) (set, bool) {
 	switch kind % 3 {
@@ -721,7 +786,7 @@ func (iFamily) newSSet(kind int, keys []int, state []int, elems [][]int) sset {
 			case 1:
 				s.Set(k, new(fpgo.StreamForInterfaceDef))
 			default:
-				s.Set(k, fpgo.StreamForInterface.FromArray(intsToI(append([]int{}, elems[i]...))))
+				s.Set(k, fpgo.StreamForInterface.FromArray(elemsToI(append([]int{}, elems[i]...))))
 			}
 		}
 		return iSSet{s}
@@ -734,7 +799,7 @@ func (iFamily) newSSet(kind int, keys []int, state []int, elems [][]int) sset {
 		case 1:
 			m[k] = fpgo.StreamForInterface.FromArray([]interface{}{})
 		default:
-			m[k] = fpgo.StreamForInterface.FromArray(intsToI(append([]int{}, elems[i]...)))
+			m[k] = fpgo.StreamForInterface.FromArray(elemsToI(append([]int{}, elems[i]...)))
 		}
 	}
 	return iSSet{fpgo.StreamSetForInterfaceFromMap(m)}
